@@ -111,8 +111,27 @@ def persistEdge (mem : G) (disk : G) (id : Nat) : G :=
   | some e => { disk with edges := disk.edges.put id e }
   | none => disk
 
+/-- The durable image of a returned whole entity is **the state it has when the statement
+ends**, however many rows (or columns of one row) return it: `retN` / `retE` may repeat an id,
+every occurrence stores the same final state. -/
 def persistReturned (mem disk : G) (retN retE : List Nat) : G :=
   retE.foldl (persistEdge mem) (retN.foldl (persistNode mem) disk)
+
+/-! ### the same rule, row by row (what `handle_graph_query` literally does)
+
+The handler walks the result rows in order and stores the snapshot each whole-entity cell
+carries.  `SET` is applied row by row and every row's projection takes a fresh snapshot, so an
+entity returned by several rows is stored several times, and **the last write wins**: that is
+the final state whenever the entity is returned by the last row that changes it.
+`occ` lists the cells in row order as (id, snapshot). -/
+
+def persistOcc (t : Tab Nat) (occ : List (Nat × Nat)) : Tab Nat :=
+  occ.foldl (fun t p => t.put p.1 p.2) t
+
+/-- the defective variant "persisted once per statement": the first occurrence wins -/
+def persistOccFirst (t : Tab Nat) (occ : List (Nat × Nat)) : Tab Nat :=
+  (occ.foldl (fun (acc : Tab Nat × List Nat) p =>
+      if acc.2.contains p.1 then acc else (acc.1.put p.1 p.2, p.1 :: acc.2)) (t, [])).1
 
 /-- blame bookkeeping for one mutation of a statement -/
 def blameMut (s : Stmt) (b : Tab Cause × Tab Cause) : Mut → Tab Cause × Tab Cause
